@@ -48,6 +48,33 @@ async def _fake_resolve(host, port, proto='udp'):
 
 _node_mod.resolve_host = _fake_resolve      # harness plumbing: no DNS in the sandbox (addresses are literal)
 
+# Determinism: every case must be a pure function of its own description.  The code under test draws rpc ids and
+# token secrets from os.urandom (constants.generate_id) and bucket refresh ids from the global `random` module;
+# both are re-seeded from the case at the start of every case (reseed), and the lru caches that hand out shared,
+# mutable KademliaPeer objects are emptied so that nothing leaks from one case into the next.
+_IDRNG = random.Random(0)
+
+
+def _seeded_generate_id(num=None):
+    if num is not None:
+        return constants.digest(str(num).encode())
+    return constants.digest(_IDRNG.getrandbits(256).to_bytes(32, 'big'))
+
+
+constants.generate_id = _seeded_generate_id
+
+
+def reseed(case):
+    import zlib
+    v = zlib.crc32(vlib.canon(case).encode())
+    _IDRNG.seed(v)
+    random.seed(v ^ 0x9e3779b9)
+    make_kademlia_peer.cache_clear()
+    try:
+        KademliaProtocol.get_rpc_peer.cache_clear()
+    except AttributeError:
+        pass
+
 
 # ==============================================================================================
 # virtual-time event loop and datagram network
@@ -491,7 +518,7 @@ class TracedValueFinder(_TraceMixin, IterativeValueFinder):
         r = super().check_result_ready(response)
         items = list(self.iteration_queue._queue)[before:]
         if self._cur is not None:
-            self._cur['vyield'] = [[compact_identity(p) for p in it] for it in items if it]
+            self._cur['vyield'] = [[compact_identity(p) for p in it] for it in items if it is not None]
         return r
 
 
@@ -581,6 +608,7 @@ class Sim:
         node = self.nodes[i]
         found = []
         finder = node.get_iterative_value_finder(blob)
+        finder._t0 = self.loop.time()
         finished = True
         async with contextlib.aclosing(finder):
             async for res in finder:
@@ -589,15 +617,18 @@ class Sim:
                     finished = False
                     finder._cut = True
                     break
+        finder._t1 = self.loop.time()
         return found, finder, finished
 
     async def node_lookup(self, i, key, shortlist=None):
         node = self.nodes[i]
         finder = node.get_iterative_node_finder(key, shortlist=shortlist, max_results=constants.K * 2)
+        finder._t0 = self.loop.time()
         found = []
         async with contextlib.aclosing(finder):
             async for res in finder:
                 found.extend(res)
+        finder._t1 = self.loop.time()
         return found, finder
 
     def true_closest(self, key, exclude=()):
@@ -1104,6 +1135,8 @@ def check_lookup(sim, i, finder, found, finished, t0, t1):
     """termination and output-validity monitor for one lookup of node i; returns list of problems"""
     problems = []
     me = sim.nodes[i].protocol
+    t0 = getattr(finder, '_t0', t0)
+    t1 = getattr(finder, '_t1', t1)
     seeds = sum(1 for c in finder._events[0]['calls'] if c['c'] == 'sched') if finder._events else 0
     learned = len(finder._learned)
     if not finished:
@@ -1112,9 +1145,13 @@ def check_lookup(sim, i, finder, found, finished, t0, t1):
         problems.append(f'{finder.KIND} lookup scheduled {finder._n_sched} probes for {learned} peers learned')
     if finder.KIND == 'node' and finder._n_sched > seeds + learned:
         problems.append(f'node lookup scheduled {finder._n_sched} probes for {learned} peers learned')
-    if t1 - t0 > RPC_TIMEOUT * finder._n_sched + 1.0:
+    # a bounded number of RPC timeouts: at every moment until it ends a lookup has a probe running, and a probe ends
+    # within one rpc_timeout, so it lasts at most rpc_timeout x (probes scheduled + 1) plus one round trip of slack.
+    # Virtual clock only; lookups whose socket the scenario closed are exempt (they must still finish).
+    bound = RPC_TIMEOUT * (finder._n_sched + 1) + 2 * sim.profile.delay[1]
+    if not getattr(finder, '_ext_closed', False) and t1 - t0 > bound:
         problems.append(f'{finder.KIND} lookup took {t1 - t0:.1f}s of virtual time for {finder._n_sched} probes '
-                        f'(bound {RPC_TIMEOUT * finder._n_sched + 1.0:.1f}s)')
+                        f'(bound {bound:.1f}s)')
     if finder.KIND == 'node':
         replied = sim.net.responses_from.get((me.external_ip, me.udp_port), set())
         for p in found:
@@ -1238,6 +1275,55 @@ def run_hit_case(run, model, case):
         sim.close()
 
 
+def run_many_case(run, model, case):
+    """honest loss-free network of n real Nodes; `ann` further peers (LightAnnouncer: the real store_to_peer) announce
+    the blob to the K nodes a real peer_search names; every node's value lookup must return every announcer"""
+    n, seed, n_ann = case['n'], case['seed'], case['ann']
+    sim = Sim(seed, n, Profile(delay=tuple(case['delay']), dup=case['dup']))
+    rng = random.Random(seed * 13 + 5)
+
+    async def go():
+        problems = []
+        order = list(range(1, n))
+        rng.shuffle(order)
+        await sim.start(order, [rng.choice([0.0, 0.5, 3.0]) for _ in order])
+        await asyncio.wait_for(sim.nodes[0].joined.wait(), 3000)
+        await asyncio.sleep(1300)
+        blob = bytes(rng.randrange(256) for _ in range(48))
+        targets_peers = await sim.nodes[rng.randrange(n)].peer_search(blob)
+        by_id = {nd.protocol.node_id: nd for nd in sim.nodes}
+        targets = [by_id[p.node_id] for p in targets_peers if p.node_id in by_id]
+        anns = [LightAnnouncer(sim, j) for j in range(n_ann)]
+        for a in anns:
+            r = await a.announce_to(blob, targets)
+            if not all(ok for _, ok in r):
+                problems.append('an honest store was refused or timed out')
+        ann_ids = [a.protocol.node_id for a in anns]
+
+        async def one(i):
+            found, finder, fin = await sim.value_lookup(i, blob, max_probes=3000)
+            return i, found, finder, fin
+        results = await asyncio.gather(*[one(i) for i in range(n)])
+        worst = None
+        for i, found, finder, fin in results:
+            problems.extend(check_lookup(sim, i, finder, found, fin, 0, 0))
+            got = {p.node_id for p in found}
+            missing = [j for j, x in enumerate(ann_ids) if x not in got]
+            if missing and (worst is None or len(missing) > len(worst[1])):
+                worst = (i, missing)
+        if worst:
+            bad = sum(1 for _, found, _, _ in results if len({p.node_id for p in found} & set(ann_ids)) < n_ann)
+            problems.append(f'loss-free honest network of {n}, {n_ann} live announcers stored on {len(targets)} nodes: '
+                            f'the value lookup of node {worst[0]} misses announcers {worst[1][:10]} '
+                            f'({len(worst[1])} missing; {bad} of {n} lookups incomplete)')
+        return {'targets': len(targets), 'lookups': len(results)}, problems
+    try:
+        info, problems = sim.run(go())
+        return info, problems, sim.traces
+    finally:
+        sim.close()
+
+
 FAULT_KINDS = list(HOSTILE_KINDS) + ['endless_pager']
 
 
@@ -1305,13 +1391,18 @@ def run_fault_case(run, model, case):
             key = bytes(rng.randrange(256) for _ in range(48))
             t0 = sim.loop.time()
             task = sim.loop.create_task(sim.node_lookup(i, key) if rng.random() < 0.5 else sim.value_lookup(i, key))
+            n_before = len(sim.traces)
             await asyncio.sleep(case['delay'][1] * rng.uniform(0.5, 1.5))
             sim.nodes[i].protocol.transport.closed = True
+            for f in sim.traces[n_before:]:
+                if f.protocol is sim.nodes[i].protocol:
+                    f._ext_closed = True
             try:
                 res = await asyncio.wait_for(task, 6000)
                 fin = res[2] if len(res) == 3 else True
             except asyncio.TimeoutError:
                 res, fin = ([], sim.traces[-1]), False
+            res[1]._ext_closed = True
             problems += check_lookup(sim, i, res[1], [], fin, t0, sim.loop.time())
             info['lookups'] += 1
         info['hostile_answered'] = sum(h.answered for h in sim.hostiles)
@@ -1360,6 +1451,7 @@ def do_case(run, model, case, rng=None):
     """run one self-contained case (also used by replay); returns nothing, records into run"""
     rng = rng or random.Random(case.get('seed', 1))
     part = case['part']
+    reseed(case)
     if part == 'ds':
         impl, mod, problems = run_ds_case(run, model, case)
         run.case(case, nontrivial=any(o[0] == 'get' for o in case['ops']))
@@ -1400,6 +1492,14 @@ def do_case(run, model, case, rng=None):
         if problems:
             run.violation(case, problems[0], signature={'part': 'crafted_loss', 'n_ann': case['n_ann'], 'seed': case['seed']})
         compare_traces(run, model, [t for t in traces if t.KIND == 'value'], 'crafted_loss', rng, 2)
+    elif part == 'many':
+        info, problems, traces = run_many_case(run, model, case)
+        run.case(case, nontrivial=True)
+        run.count('many:ann=%d' % case['ann'])
+        for p in problems[:3]:
+            run.violation(case, p, signature={'part': 'many', 'n': case['n'], 'ann': case['ann'], 'seed': case['seed']})
+        compare_traces(run, model, [t for t in traces if t.KIND == 'value'], 'many ann=%d seed=%d' % (case['ann'], case['seed']),
+                       rng, case.get('trace_cap', 12))
     elif part == 'hit':
         info, problems, traces = run_hit_case(run, model, case)
         run.case(case, nontrivial=True)
@@ -1446,7 +1546,8 @@ def main(run):
         '264,265); C compact addresses on every edge of the reserved networks x port edges x id lengths; E1 honest '
         'loss-free networks of 2..40 real Nodes, sampled join orders/gaps, delay up to 2 s with reordering and '
         'duplication, 1-3 announcers using the BlobAnnouncer retry rule, lookups from every node fresh / +12h / 24h-150s '
-        '/ 24h+; E2 networks with datagram loss 0-50%%, delay up to 7 s, dead nodes and a fixed catalogue of %d hostile '
+        '/ 24h+; E1b honest networks of 10..40 nodes where 9..100 further peers announce the same blob to the K nodes a real '
+        'peer_search names and every node must find every announcer; E2 networks with datagram loss 0-50%%, delay up to 7 s, dead nodes and a fixed catalogue of %d hostile '
         'reply kinds; D every finder that ran in B2/E1/E2 (incl. join/refresh/announce lookups) is replayed event by event '
         'through the extracted model. distinct = distinct case dict (seeded scenarios / op lists / byte strings / finder '
         'traces by searcher+key+length); non-trivial = contains at least one query (ds), n>0 (pages), >2 events (traces).'
@@ -1524,6 +1625,12 @@ def main(run):
         if tier != 'thorough' and n == 5:
             case['passage'] = 'real'
         add_hit(do_case(run, model, case, rng), n)
+    # ---- E1b: many announcers on the K storing nodes of an honest network
+    many = [(12, 24), (14, 60), (18, 100)] if tier != 'thorough' else \
+        [(n, a) for n in (10, 12, 16, 24, 40) for a in (9, 17, 24, 60, 100)]
+    for n, a in many:
+        do_case(run, model, {'part': 'many', 'n': n, 'ann': a, 'seed': rng.randrange(1 << 30),
+                             'delay': [0.001, rng.choice([0.05, 0.5, 1.5])], 'dup': rng.choice([0.0, 0.2])}, rng)
     # ---- E2
     for idx in range(vlib.scaled(tier, 16, 240)):
         add_fault(do_case(run, model, gen_fault_case(rng, idx), rng))
